@@ -34,6 +34,8 @@ func init() {
 			{ID: "C18.8", Desc: "only-if-cached is not hidden by the escape handling of the list splitter (ext=\"C:\\\\\", only-if-cached)", Run: func(c *Ctx) { ruleC12_7(c); renameRule(c, "C12.7", "C18.8"); ruleEscapeOnlyInQuotes(c, "C18.8") }, MinSites: 1},
 			{ID: "C18.9", Desc: "the entry judged under only-if-cached is the entry that matched (the matcher ranks the caller's list)", Run: func(c *Ctx) { ruleMatcherIndexesCallersSlice(c, "C18.9") }, MinSites: 1},
 			{ID: "C18.10", Desc: "fields named by a qualified no-cache are stripped by their canonical names on the only-if-cached answer", Run: func(c *Ctx) { ruleC02_4(c); renameRule(c, "C02.4", "C18.10") }, MinSites: 1},
+			{ID: "C18.11", Desc: "an entry whose body ends early is not what only-if-cached may answer with", Run: func(c *Ctx) { ruleStoredBodyComplete(c, "C18.11") }, MinSites: 1},
+			{ID: "C18.12", Desc: "a `*` member of the Vary list reaches the index (such a response is never selected without validation, so only-if-cached answers 504)", Run: func(c *Ctx) { ruleC04_8(c); renameRule(c, "C04.8", "C18.12") }, MinSites: 1},
 		},
 	})
 }
